@@ -45,6 +45,8 @@ class XSpec:
             if key in self.__dict__:
                 raise ValueError(f"duplicate key: {key!r} in {string!r}")
             if key.startswith("env:"):
+                if key[4:] in self.env:
+                    raise ValueError(f"duplicate key: {key!r} in {string!r}")
                 self.env[key[4:]] = value
             else:
                 setattr(self, key, value)
